@@ -23,31 +23,44 @@ RULE = ('Hypothesis-generated deployments (grid SRS 3857/900913/4326/25832/31467
         '1..3, meta buffer 0/7/40, upstream WMS 1.1.1/1.3.0 with supported_srs subsets and coverages or tile URL '
         'templates, cache-of-cache cascades, uncached cascaded layers, file/sqlite/mbtiles/compact backends), '
         '4..8 GetMap requests each (WMS 1.1.1/1.3.0, any service SRS, aligned / shifted / rescaled / far-off / '
-        'reprojected / exactly-one-tile views, inside, across and beyond the layer extent) followed by '
-        'GetFeatureInfo clicks on the same view. One evaluation = one GetMap view with its clicks. A view is '
+        'reprojected / exactly-one-tile views, inside, across and beyond the layer extent) followed by WMS '
+        'GetFeatureInfo clicks on the same view and one WMTS GetFeatureInfo on the tile under it. One evaluation = one GetMap view with its clicks. A view is '
         'non-trivial when it is built from >= 2 tiles, or resampled / reprojected, or clipped at the extent, or '
         'uses 1.3.0 with a north-east CRS, or carries feature-info clicks; distinct = distinct '
         '(deployment, ground, request) triples.')
 ASSUMPTIONS = [
     'image.paletted: false (DESIGN section 1); responses requested as image/png',
-    'trusted: pyproj (same projection library as MapProxy; the oracle checks where pixels are taken from), Pillow decoding',
-    'pixel oracle: rho = 1.5 output px (+ the coarsest pixel of the chain, in output px, when a served level is more '
-    'than 1.25 x coarser than the request), eps = 3 levels; boundary band of the layer extent (rho-disc neither '
-    'wholly inside nor wholly outside) is not judged',
-    'extent = intersection of grid bboxes / source coverage; "outside" is judged only outside the bounding box of '
-    'those rectangles in every SRS of the chain (MapProxy clips with transformed bounding boxes); white and the '
-    'requested BGCOLOR / alpha 0 all count as background',
-    'reprojection cases restricted to |lat| <= 80 deg and to the usage area of every SRS involved',
+    'trusted: pyproj (same projection library as MapProxy; the oracle checks where pixels are taken from), Pillow '
+    'decoding; all SRS of one deployment come from one datum-consistent family (wgs84+etrs89, wgs84+dhdn, etrs89+dhdn) '
+    'because PROJ chains ETRS89->DHDN and WGS84->DHDN 0.6-0.8 m apart',
+    'pixel oracle: exact min/max of the ground function over the disc of radius rho output px, eps = 3 levels; '
+    'rho = 1.5 (statement) + the coarsest pixel of the chain in output px when a served level / source image is more '
+    'than 1.25 x coarser than the view + 1 px when the view is clipped at the layer extent (integer placement of the '
+    'sub-image, bbox_position_in_image) + 1 cache px when a meta tile is clipped at a WMS source coverage + 1 cache px '
+    'per additional resampling stage (source-side reprojection, each cascade stage); 33 % of the judged views have '
+    'rho = 1.5, 25 % rho > 3.5 (class histogram rho:*)',
+    'a band of rho + per stage (resampling kernel footprint + 1) px along the extent edges is not judged; extent = '
+    'intersection of grid bboxes / source coverage; "outside" is judged only outside the bounding box of those '
+    'rectangles (grid bboxes grown to whole tiles) in every SRS of the chain; white, black, the requested BGCOLOR, '
+    'alpha 0 and mixtures of them count as background',
+    'reprojection cases restricted to |lat| <= 80 deg, to the usage area of every SRS involved and to windows that do '
+    'not wrap around the date line',
     'views whose output or cache pixel exceeds 1/16 of the colour period (aliasing) or that lie beyond '
     'max_shrink_factor are counted as excluded, not judged',
-    'single-tile round trip only for tiles wholly inside the layer extent',
-    'feature info: forwarded click must hit the clicked ground point within 1.0 x max(client px, upstream px) x 1.05',
+    'single-tile round trip (GetMap of exactly one tile vs /tiles/<layer>/<grid>/z/x/y.png) only for tiles wholly '
+    'inside the layer extent and levels that the resolution identifies unambiguously',
+    'feature info: forwarded click must hit the clicked ground point within 1.0 x max(client px, upstream px) x 1.05; a '
+    'click more than 1.5 px inside the source coverage must be forwarded; WMTS KVP GetFeatureInfo is probed on the '
+    'tile under the view centre (not on sqrt2 grids, whose odd levels the tile services do not publish)',
+    'open known findings are excluded by construction (counts in excluded_by_construction) and demonstrated by the '
+    'regression cases in replays/C01/',
 ]
 
 SIG = 'C01/'
 SIG_SQLITE_L0 = 'C01/background-inside-extent/sqlite-level0'
 SIG_SMALL_QUADS = 'C01/misplaced/mesh-quads-under-50px-unchecked'
 SIG_TILE_LEVEL = 'C01/misplaced/tile-source-level-picked-by-stretched-resolution'
+SIG_CASCADE_EXTENT = 'C01/background-inside-extent/cascade-extent-from-world-bbox-in-regional-srs'
 SIG_WMTS_FI_ROW = 'C01/featureinfo-misplaced/wmts-row-not-flipped-on-sw-origin-grid'
 MESH_EXPOSURE_LIMIT = 0.5
 QUICK_CONFIGS = 800
@@ -182,6 +195,8 @@ def build_request(spec, rd, gnd):
     E = extent_in(chain, N)
     win_w, win_h = w * rx, h * ry
     where = rd['where']
+    if kind == 'tile' and where in ('edge', 'corner'):
+        where = 'inside'      # the single-tile round trip needs tiles that lie wholly inside the extent
     regional = E is not None and (E[2] - E[0]) <= 60 * win_w and (E[3] - E[1]) <= 60 * win_h
     if E is None or not regional:
         if where in ('edge', 'corner') and E is not None and not multi:
@@ -604,15 +619,32 @@ def check_pixels(gnd, arr, px, py, bbox, size, srs, rho, eps=3.0):
     return np.nonzero(worst > 0)[0], worst
 
 def is_background(px, bg, tol=4):
-    """px: [N,4] uint8.  Background = (nearly) transparent, or opaque white, or opaque requested BGCOLOR."""
+    """px: [N,4] uint8.  Background = (nearly) transparent, or opaque white, or opaque requested BGCOLOR, or opaque
+    black (what transparent pixels of a cascaded cache turn into when MapProxy merges its RGBA tiles on an RGB
+    canvas - a compositing matter, not a georeferencing one).  The ground function never produces these colours."""
     a = px[:, 3].astype(int)
     rgb = px[:, :3].astype(int)
     transparent = a <= 10
     white = (a >= 245) & (rgb >= 254 - tol).all(axis=1)
-    res = transparent | white
+    black = (a >= 245) & (rgb <= tol + 4).all(axis=1)
+    res = transparent | white | black
     if bg is not None:
         res |= (a >= 245) & (np.abs(rgb - np.asarray(bg)[None, :]) <= tol).all(axis=1)
     return res
+
+
+def is_background_blend(px, bg, tol=6):
+    """Opaque pixels whose colour is a mixture of the background colours (black, white, requested BGCOLOR): what
+    resampling produces where two kinds of background meet."""
+    rgb = px[:, :3].astype(float)
+    anchors = [np.array([255.0, 255.0, 255.0])]
+    if bg is not None:
+        anchors.append(np.asarray(bg, dtype=float))
+    A = np.stack(anchors, axis=1)                      # 3 x k, black is the origin
+    coef, _, _, _ = np.linalg.lstsq(A, rgb.T, rcond=None)
+    resid = np.abs(A.dot(coef) - rgb.T).max(axis=0)
+    ok = (resid <= tol) & (coef >= -0.03).all(axis=0) & (coef.sum(axis=0) <= 1.03)
+    return ok
 
 
 def parse_bg(s):
@@ -686,6 +718,8 @@ def check_map(spec, chain, req, gnd, arr, vm, st_):
     st_.extra['pixels_judged'] = st_.extra.get('pixels_judged', 0) + int(ins.sum() + outs.sum())
     if outs.any():
         bad = outs & ~bg
+        if bad.any():
+            bad &= ~is_background_blend(got, parse_bg(req['bgcolor']))
         if bad.any():
             i = int(np.nonzero(bad)[0][0])
             return ('content-outside-extent',
@@ -892,8 +926,10 @@ def check_wmts_featureinfo(dep, spec, chain, req, click_frac, gnd, st_, open_sig
     st_.classes['wmts-featureinfo:%s' % ('sw-origin' if sw_origin else 'nw-origin')] += 1
     if not calls:
         if must:
-            return ('featureinfo-not-forwarded', 'WMTS click %r on tile %r of %s was not forwarded upstream'
-                    % (pos, (tx, ty, z), gname))
+            # on a sw-origin grid the mirrored tile may lie outside the source coverage: same root cause
+            return ('wmts-row-not-flipped' if sw_origin else 'featureinfo-not-forwarded',
+                    'WMTS click %r on tile %r of %s (TILEROW=%d, origin %s) was not forwarded upstream'
+                    % (pos, (tx, ty, z), gname, row, G['origin']))
         return None
     info = calls[0].info
     pu, upx = _px_metrics(info['bbox'], info['size'], info['pos'], info['srs'], gnd.srs)
@@ -992,6 +1028,17 @@ def tile_source_close_levels(spec, chain):
     return False
 
 
+def cascade_world_extent_in_regional_srs(spec, chain):
+    """True for a cascade whose upper cache has a global grid while the cache below it has a grid in a regional
+    projected SRS: the loader intersects the two extents in the regional SRS, where the world bbox is meaningless."""
+    for upper, lower in zip(chain['grids'], chain['grids'][1:]):
+        gu, gl = spec['grids'][upper], spec['grids'][lower]
+        if gu['srs'] in confgen.GLOBAL_BBOX and list(gu['bbox']) == confgen.GLOBAL_BBOX[gu['srs']] \
+                and gl['srs'] in confgen.PROJECTED_REGIONAL:
+            return True
+    return False
+
+
 def run_case(case, st_, only=None, exclude_known=True):
     """Run the deployment of a case and all (or the `only`-th) of its views.  Returns (Violation|None, index)."""
     spec = case['spec']
@@ -1031,6 +1078,10 @@ def run_view(dep, case, k, rd, gnd, st_, open_sigs=frozenset()):
     close_levels = tile_source_close_levels(spec, chain)
     if close_levels and SIG_TILE_LEVEL in open_sigs:
         st_.excluded['known-finding:tile-source-grid-with-levels-closer-than-stretch-factor'] += 1
+        return None
+    world_extent = cascade_world_extent_in_regional_srs(spec, chain)
+    if world_extent and SIG_CASCADE_EXTENT in open_sigs:
+        st_.excluded['known-finding:global-grid-cascading-on-regional-projected-cache'] += 1
         return None
     small_quads = vm['mesh_exposure'] > MESH_EXPOSURE_LIMIT
     if small_quads and SIG_SMALL_QUADS in open_sigs:
@@ -1109,6 +1160,8 @@ def run_view(dep, case, k, rd, gnd, st_, open_sigs=frozenset()):
             signature = SIG_SMALL_QUADS
         elif what == 'wmts-row-not-flipped':
             signature = SIG_WMTS_FI_ROW
+        elif world_extent and what == 'background-inside-extent':
+            signature = SIG_CASCADE_EXTENT
         elif close_levels and what in ('misplaced', 'background-inside-extent', 'content-outside-extent',
                                        'roundtrip-resampled'):
             signature = SIG_TILE_LEVEL
